@@ -301,7 +301,8 @@ type world struct {
 	tracked    map[common.Hash]*track
 	order      []common.Hash             // submission order (first submission)
 	usedBy     map[lt.Key][]common.Hash  // confidential output (by key image) -> transactions built on it
-	taint      map[common.Address]string // sender -> error class of a REJECTED submission that nevertheless advanced the speculative nonce
+	taint      map[common.Address]string // sender -> input class of a REJECTED submission that nevertheless advanced the speculative nonce
+	taintInfo  map[common.Address]string // the same, readable (for the witness)
 	hist       []opRec
 	droppedNow []common.Hash // transactions that left the pool (uncommitted) during the operation being judged
 	stop       bool          // a violation was reported: the case ends
@@ -314,7 +315,7 @@ func newWorld(c *core.Ctx, pc poolCfg) (*world, error) {
 	}
 	w := &world{c: c, r: c.Rng, wc: wc, g: wc.g, pc: pc, lastCommit: wc.lastCommit,
 		byAddr: map[common.Address]*sender{}, committed: map[common.Hash]uint64{}, spent: map[lt.Key]common.Hash{},
-		tracked: map[common.Hash]*track{}, usedBy: map[lt.Key][]common.Hash{}, taint: map[common.Address]string{}}
+		tracked: map[common.Hash]*track{}, usedBy: map[lt.Key][]common.Hash{}, taint: map[common.Address]string{}, taintInfo: map[common.Address]string{}}
 	mempool.GoodTxDropTime = never
 	mempool.GoodTxRebroadcastTime = never
 	if w.N, err = chainkit.OpenNode(wc.g, wc.cloneDBs(), chainkit.NodeOpts{MemCfg: pc.memCfg()}); err != nil {
